@@ -124,6 +124,14 @@ def expected_regions(deck, P, ctx):
     return out, rf
 
 
+def norm_label(lab, ids):
+    """a lattice element filled with the lattice's own universe is a generated cell: its number is not a
+    cell of the deck; such volumes are labelled ('elem', container)."""
+    if len(lab) == 2 and lab[0] not in ids:
+        return ('elem', lab[1])
+    return lab
+
+
 def offsurface(rf):
     cons = []
     seen = set()
@@ -162,10 +170,11 @@ def compare(deck, path, pre, prop, flags=None, what=('regions', 'compo', 'valid'
         return res
     exp, rf = expected_regions(deck, POINT, ctx)
     groups = {}
+    ids = set(c.id for c in deck.cells)
     for vid, v in t4.vols.items():
         if v.fictive:
             continue
-        groups.setdefault(dk.volume_label(v), []).append(vid)
+        groups.setdefault(norm_label(dk.volume_label(v), ids), []).append(vid)
     # points on an MCNP surface or on a written surface are outside the claim (measure zero)
     for vid in t4.vols:
         ev.vol(vid)
@@ -289,10 +298,11 @@ def replay_compare(case, t4, P):
     exp, rf = expected_regions(deck, P, ctx)
     ev = t4sem.Evaluator(t4, P, ctx)
     groups = {}
+    cids = set(c.id for c in deck.cells)
     for vid, v in t4.vols.items():
         if v.fictive:
             continue
-        groups.setdefault(dk.volume_label(v), []).append(vid)
+        groups.setdefault(norm_label(dk.volume_label(v), cids), []).append(vid)
     names = {}
     for nm, cnt, ids in t4.geomcomp:
         for vid in ids:
